@@ -238,6 +238,17 @@ def run_case(case, R=None):
         cmd.append("--force")
     p = subprocess.run(cmd, stdout=subprocess.PIPE, stderr=subprocess.STDOUT, timeout=120)
     log = p.stdout.decode(errors="replace")
+    if p.returncode != 0 and "coarse-grained bead is bigger" not in log and "an error occurred" not in log:
+        # the process died without a votca error message (e.g. the shared libraries were being relinked by a concurrent
+        # build): run the deterministic command once more and count the incident
+        import time
+        time.sleep(2)
+        if os.path.exists(outname):
+            os.remove(outname)
+        p = subprocess.run(cmd, stdout=subprocess.PIPE, stderr=subprocess.STDOUT, timeout=120)
+        log = p.stdout.decode(errors="replace")
+        if R:
+            R.count("runs_repeated_after_abnormal_exit")
     pair = case["in"] + "-to-" + case["out"]
     sym = "ellipsoid" if case["sym"] == 3 else "sphere"
     expect_fail = any(f["oversize"] for f in frames)
